@@ -43,6 +43,15 @@ def cuts_scalar(chunks):
     return False
 
 
+def second_return_needed(evs):
+    """Close was requested, the reader returned, and the parser read on: it took a second return to stop it"""
+    for e in evs:
+        if e.get("ev") == "run" and e.get("stopRets") in (0, 1):
+            e["stopRets"] = 2
+            return evs
+    return None
+
+
 def sig_of(rej, scn):
     why = rej.get("why")
     d = scn["desc"]
@@ -73,6 +82,7 @@ def main(c):
         "real-time constants: a long gap lasts until the ESC timer has actually expired (observed through the verif hook), a short gap is kept under 4 ms or the scenario's timing is not judged",
         "gate hooks (build tag verif) in ansi/parser.go are the linearisation points of ParserLife.tla",
         "a panic in a parser goroutine is observed as the death of the child process executing the scenario",
+        "Close-then-return scenarios: 'the parser has not stopped' is the observation that it waits in a further Read after Close and a reader return (no time-out involved)",
     ]
     sched_file = os.path.join(c.scratch, "sched.ndjson")
     lines = []
@@ -99,7 +109,7 @@ def main(c):
             jobs["sim:" + cfg] = run
 
         # 1. the model of the repaired code (callback under the mutex, timer stopped by the first byte that arrives) must
-        #    satisfy the four properties exhaustively, inputs with a two-byte scalar cut by a gap included
+        #    satisfy the four properties and CloseStops exhaustively, inputs with a two-byte scalar cut by a gap included
         mc("fixed", "MC_ParserLife.tla", "MC_ParserLife_fixed.cfg", workers=8)
         # 2. the pre-repair shape: every property has a counterexample; each is a regression schedule
         invs = ("NoPanic", "NoStateClobber", "ExactlyOneEOFLast", "TimingExact")
@@ -112,6 +122,10 @@ def main(c):
         #     promptly followed by the first byte of a scalar whose rest arrives after a silence is reported as the key;
         #     the counterexample is replayed (a code that stops the timer at the first byte does not let it fire: tolerated)
         dumped("nopeek", "MC_ParserLife.tla", "MC_ParserLife_nopeek_TimingExact.cfg")
+        # 2f. the shape that waits for the rest of a scalar whatever happens (CutStop = FALSE): Close while the run loop waits
+        #     in its read, then a reader return with the lead byte alone, and it waits in a further read (CloseStops refuted);
+        #     the counterexample is replayed: on the real parser the returns of the reader after Close are counted
+        dumped("nocut", "MC_ParserLife.tla", "MC_ParserLife_nocut_CloseStops.cfg")
         # 2e. the recorded finding as a shape: silence on the wire while the consumer holds the run loop up (WireGaps)
         mc("wire", "MC_ParserLife.tla", "MC_ParserLife_wire_TimingExact.cfg", workers=4, expect_violation=True)
         # 2c. goal-directed schedules from the model of the repaired code with stalls (StallFire): shortest behaviours
@@ -134,12 +148,14 @@ def main(c):
 
         if not res["fixed"][0]:
             c.notes.append("MODEL: ParserLife (repaired shape) violates a property in the bounded model - candidate, see TLC output")
-        for key in ["code_" + i for i in invs] + ["emitunlocked", "nopeek"]:
+        for key in ["code_" + i for i in invs] + ["emitunlocked", "nopeek", "nocut"]:
             ok, dump = res[key]
             if key == "emitunlocked":
                 c.cov["emit_unlocked_shape_refuted"] = not ok
             if key == "nopeek":
                 c.cov["late_timer_stop_shape_refuted"] = not ok
+            if key == "nocut":
+                c.cov["wait_after_close_shape_refuted"] = not ok
             if not ok and os.path.exists(dump):
                 d = cex_to_sched(dump)
                 if key == "nopeek":
@@ -183,6 +199,7 @@ def main(c):
             ("sequence after the end marker", selfmut.eof_not_last),
             ("first delivered sequence missing", selfmut.item_dropped),
             ("parser panicked", selfmut.parser_panicked),
+            ("second reader return needed after Close", second_return_needed),
         ])
     idx = c.load_index(td)
     c.count_distinct(idx, nontrivial=lambda s: True)
@@ -194,7 +211,8 @@ def main(c):
     c.confirm(drv, "c08", specs, "ParserLife_Trace.tla", "ParserLife_Trace.cfg", cands, sig_of)
     return c.finish(
         rule="scenario = chunked input with short/long gaps x end (eof/read error, prompt or after silence) x consumer speed "
-             "(eager/slow/lazy/stalled, retaining or not; paced beside wall-clock arrival times) x Close point, chunk boundaries "
+             "(eager/slow/lazy/stalled, retaining or not; paced beside wall-clock arrival times) x Close point (also: Close while the "
+             "parser waits in Read, then one reader return at a time, counted until the channel is closed), chunk boundaries "
              "also inside multi-byte scalars, or a gate schedule = one TLC behaviour of ParserLife "
              "(counterexamples of the pre-repair shape + random walks of both shapes) replayed on the real parser; "
              "distinct = distinct descriptor")
